@@ -101,7 +101,9 @@ def split_output(out, n_flush, exit_lines):
 
 
 def scen(w, D=2, scripts=1, full_modes=0):
-    if full_modes:
+    if full_modes == 2:
+        modes = {"M204": "merge", "M73": "first", "M117": "last"}
+    elif full_modes:
         modes = {"M204": MODES[w.choose(4, "modeM204")], "M73": MODES[w.choose(4, "modeM73")],
                  "M117": MODES[w.choose(3, "modeM117")]}
     else:
@@ -234,8 +236,9 @@ def plan(tier):
     out = [Scenario("episodes", scen, params={"D": 2, "scripts": 1, "full_modes": 0}, cover=cov,
                     bounds={"D": 2, "codes": ["M204", "M73", "M117"], "mode assignments": 8, "endings": ENDINGS})]
     if tier == "thorough":
-        out.append(Scenario("episodes-d3", scen, params={"D": 3, "scripts": 1, "full_modes": 0}, cover=cov,
-                            bounds={"D": 3, "mode assignments": 8, "endings": ENDINGS}))
+        out.append(Scenario("episodes-d3", scen, params={"D": 3, "scripts": 1, "full_modes": 2},
+                            cover=["ending-" + e for e in ENDINGS] + ["occ-M204-merge", "occ-M73-first", "occ-M117-last"],
+                            bounds={"D": 3, "mode assignment": "M204 merge, M73 first, M117 last", "endings": ENDINGS}))
         out.append(Scenario("episodes-all-modes", scen, params={"D": 2, "scripts": 1, "full_modes": 1}, cover=cov,
                             bounds={"D": 2, "mode assignments": 48, "endings": ENDINGS}))
         out.append(Scenario("episodes-noscripts", scen, params={"D": 2, "scripts": 0},
